@@ -250,7 +250,17 @@ func (r *repeat) more(s bitStream) bool {
 		pCont = 0
 	}
 
-	cont := flipBiasedCoin(s, pCont)
+	var cont bool
+	if pCont > 0 {
+		cont = flipBiasedCoin(s, pCont)
+	} else {
+		// The stop is forced, so the coin value is irrelevant now, but it must not be
+		// misread as "continue" once the reason for stopping (e.g. too many rejected
+		// attempts) has been pruned from the recording: consume one word, record zero.
+		i := s.beginGroup(coinFlipLabel, false)
+		s.drawBits(0)
+		s.endGroup(i, false)
+	}
 	if cont {
 		r.count++
 	} else {
